@@ -44,6 +44,13 @@ Theorem C12_dropped_unsent : forall s s' tag, p s = InSendQ tag -> step s NoWrit
 Proof. exact dropped_unsent. Qed.
 Print Assumptions C12_dropped_unsent.
 
+(* Serial transport: the deadline timer is armed before the write, so the frame of a call arrives complete at the peer
+   only while the deadline has not passed (a write blocked beyond it is aborted), and its arrival changes nothing. *)
+Theorem C12_serial_write_done_by_deadline : forall s s', step s WriteDone = Some s' ->
+  p s = OnWire None /\ now s <= deadline s /\ conn_open s = true /\ s' = s.
+Proof. exact write_done_by_deadline. Qed.
+Print Assumptions C12_serial_write_done_by_deadline.
+
 (* Non-vacuity: mux call written at tick 3 with tag 5, timer at 10 -> discard 5; serial call reaching the
    transport exactly at its deadline is not written. *)
 Example C12_example_mux :
